@@ -1909,89 +1909,161 @@ class Lockstep(object):
 
 
 # ---------------------------------------------------------------------------
-# containment: one case per forked child, so that heap corruption caused by one program cannot
-# falsify the verdict of the following ones and a dying interpreter still yields a keyed witness
+# containment: cases run in forked children (a batch per child), so that heap corruption caused
+# by one program cannot falsify the verdict of later ones and a dying interpreter still yields a
+# keyed witness.  A child is retired as soon as one of its cases reports a violation.
 # ---------------------------------------------------------------------------
-def run_forked(c, ctx, fn):
-    """Run fn(c) in a forked child.  The child streams the label of the step it is about to
-    execute and finally its verdict (violations, counters, class signature); the parent merges
-    them.  A child killed by a signal becomes the violation 'crash:<last label>'."""
-    import os, pickle, signal, traceback, struct
-    rfd, wfd = os.pipe()
-    ctx.jf.flush()
-    pid = os.fork()
-    if pid == 0:
-        code = 0
-        try:
-            os.close(rfd)
-            signal.alarm(0)
+class ForkRunner(object):
+    """runner = ForkRunner(ctx, one); ctx.run_case(k, {}, runner.run)
 
-            def send(obj):
-                b = pickle.dumps(obj, 2)
-                os.write(wfd, struct.pack("<I", len(b)) + b)
-            c.progress = lambda label: send(("step", label))
+    The child receives case numbers, builds the same Case (same per-case PRNG) and streams
+    ('step', (label, source)) before every program line and finally ('done', verdict).  The parent
+    merges verdict, counters, maxima, samples.  A child that dies becomes the violation
+    'crash:<class of the last step>' of the case it was running."""
+
+    def __init__(self, ctx, fn, batch=60):
+        self.ctx, self.fn, self.batch = ctx, fn, batch
+        self.pid = None
+        self.cmd_w = self.res_r = None
+        self.buf = b""
+
+    # -- child side -----------------------------------------------------------
+    def _child(self, cmd_r, res_w):
+        import os, pickle, struct, signal, traceback
+        from vlib.harness import Case
+        ctx = self.ctx
+        signal.alarm(0)
+        signal.signal(signal.SIGALRM, signal.SIG_DFL)
+
+        def send(obj):
+            b = pickle.dumps(obj, 2)
+            os.write(res_w, struct.pack("<I", len(b)) + b)
+        done = 0
+        f = os.fdopen(cmd_r, "rb", 0)
+        while True:
+            line = f.readline()
+            if not line:
+                break
+            k = int(line)
+            before = dict(ctx.counters)
+            nsamples = len(ctx.samples)
+            c = Case(ctx, k, {})
+            c.progress = lambda item: send(("step", item))
             try:
-                fn(c)
-            except BaseException as e:      # noqa: reported by the parent
+                self.fn(c)
+            except BaseException as e:      # noqa: reported by the parent as a violation
                 c.fail("harness-exception:%s" % type(e).__name__,
                        "".join(traceback.format_exception(type(e), e, e.__traceback__))[-3000:])
-            c.progress = None
+            done += 1
+            delta = dict((n, v - before.get(n, 0)) for n, v in ctx.counters.items() if v != before.get(n, 0))
+            retire = bool(c.failed) or done >= self.batch
             send(("done", {"failed": c.failed, "checked": c.checked, "sig": c.sig, "desc": c.desc,
-                           "counters": ctx.counters, "maxima": ctx.maxima, "samples": ctx.samples}))
-        except BaseException:
-            code = 3
-        finally:
-            os._exit(code)
-    os.close(wfd)
-    last, payload, buf, prog = None, None, b"", []
-    try:
-        while True:
-            chunk = os.read(rfd, 65536)
-            if not chunk:
+                           "counters": delta, "maxima": ctx.maxima, "samples": ctx.samples[nsamples:],
+                           "retire": retire}))
+            if retire:
                 break
-            buf += chunk
-            while len(buf) >= 4:
-                (ln,) = struct.unpack("<I", buf[:4])
-                if len(buf) < 4 + ln:
-                    break
-                kind, obj = pickle.loads(buf[4:4 + ln])
-                buf = buf[4 + ln:]
-                if kind == "step":
-                    if isinstance(obj, tuple):
+
+    def _spawn(self):
+        import os
+        cmd_r, cmd_w = os.pipe()
+        res_r, res_w = os.pipe()
+        self.ctx.jf.flush()
+        pid = os.fork()
+        if pid == 0:
+            code = 0
+            try:
+                os.close(cmd_w)
+                os.close(res_r)
+                self._child(cmd_r, res_w)
+            except BaseException:
+                code = 3
+            finally:
+                os._exit(code)
+        os.close(cmd_r)
+        os.close(res_w)
+        self.pid, self.cmd_w, self.res_r, self.buf = pid, cmd_w, res_r, b""
+
+    def _reap(self, kill=False):
+        import os, signal
+        status = 0
+        if self.pid is not None:
+            if kill:
+                try:
+                    os.kill(self.pid, signal.SIGKILL)
+                except OSError:
+                    pass
+            for fd in (self.cmd_w, self.res_r):
+                try:
+                    os.close(fd)
+                except OSError:
+                    pass
+            try:
+                _, status = os.waitpid(self.pid, 0)
+            except OSError:
+                status = 0
+        self.pid = self.cmd_w = self.res_r = None
+        return status
+
+    # -- parent side ----------------------------------------------------------
+    def run(self, c):
+        import os, pickle, struct
+        ctx = self.ctx
+        if self.pid is None:
+            self._spawn()
+        last, payload, prog = None, None, []
+        try:
+            os.write(self.cmd_w, ("%d\n" % c.k).encode())
+            while payload is None:
+                while len(self.buf) >= 4:
+                    (ln,) = struct.unpack("<I", self.buf[:4])
+                    if len(self.buf) < 4 + ln:
+                        break
+                    kind, obj = pickle.loads(self.buf[4:4 + ln])
+                    self.buf = self.buf[4 + ln:]
+                    if kind == "step":
                         last = obj[0]
                         prog.append(obj[1])
                     else:
-                        last = obj
-                else:
-                    payload = obj
-    except BaseException:
-        try:
-            os.kill(pid, signal.SIGKILL)
-        except OSError:
-            pass
-        os.waitpid(pid, 0)
-        os.close(rfd)
-        raise
-    os.close(rfd)
-    _, status = os.waitpid(pid, 0)
-    if payload is None:
-        sig = os.WTERMSIG(status) if os.WIFSIGNALED(status) else 0
-        c.check()
-        c.fail("crash:%s" % ((last or "before-first-step").split(":")[0]),
-               "interpreter died (%s) while/after executing a step of class %r" %
-               ("signal %d" % sig if sig else "exit status %d" % os.WEXITSTATUS(status), last) +
-               "\nprogram:\n  " + "\n  ".join(prog))
-        c.desc["program"] = prog
-        return
-    c.failed.extend(payload["failed"])
-    c.checked += payload["checked"]
-    c.sig = payload["sig"]
-    c.desc.update(payload["desc"])
-    ctx.counters = payload["counters"]
-    ctx.maxima = payload["maxima"]
-    ctx.samples = payload["samples"]
-    if os.WIFSIGNALED(status) or (os.WIFEXITED(status) and os.WEXITSTATUS(status) != 0):
-        c.fail("crash:at-exit", "child delivered its verdict but then died (status %d)" % status)
+                        payload = obj
+                        break
+                if payload is not None:
+                    break
+                chunk = os.read(self.res_r, 65536)
+                if not chunk:
+                    break
+                self.buf += chunk
+        except BaseException:
+            self._reap(kill=True)
+            raise
+        if payload is None:
+            status = self._reap()
+            sig = os.WTERMSIG(status) if os.WIFSIGNALED(status) else 0
+            c.check()
+            c.fail("crash:%s" % ((last or "before-first-step").split(":")[0]),
+                   "interpreter died (%s) while/after executing a step of class %r" %
+                   ("signal %d" % sig if sig else "exit status %d" % os.WEXITSTATUS(status), last) +
+                   "\nprogram:\n  " + "\n  ".join(prog))
+            c.desc["program"] = prog
+            return
+        c.failed.extend(payload["failed"])
+        c.checked += payload["checked"]
+        c.sig = payload["sig"]
+        c.desc.update(payload["desc"])
+        for n, v in payload["counters"].items():
+            ctx.counters[n] = ctx.counters.get(n, 0) + v
+        for n, v in payload["maxima"].items():
+            if v > ctx.maxima.get(n, -1.0):
+                ctx.maxima[n] = v
+        for smp in payload["samples"]:
+            if len(ctx.samples) < 4:
+                ctx.samples.append(smp)
+        if payload["retire"]:
+            status = self._reap()
+            if os.WIFSIGNALED(status):
+                c.fail("crash:at-exit", "child delivered its verdict but then died (signal %d)" % os.WTERMSIG(status))
+
+    def close(self):
+        self._reap(kill=True)
 
 
 def real_namespace():
